@@ -107,6 +107,14 @@ func genC08(r *Rng, n int, tier string, emit func(Case)) {
 				// the module's asset() function reads engine state (manifest rewrites) that a load replaces
 				useAsset = true
 				jobs = append(jobs, J{"doc": []interface{}{nTag("script", false, []interface{}{nAttr("src", eCall(eId("asset"), eStr([]string{"js/app.js", "css/x.css", "img/none.png"}[rr.Intn(3)])), true)}), nBuf(eCall(eId("asset"), eStr("app.js")), true)}, "data": mutData(rr)})
+			} else if rr.Chance(1, 5) {
+				// reads of members that are absent from the data (optional fields): the lookup's fall-back path
+				var body []interface{}
+				for _, nm := range []string{"badge", "uRL", "apiKey", "nope", "iD"} {
+					body = append(body, nIf(eDot(eId("o"), nm), []interface{}{nText("has-" + nm)}, nil), nBuf(eDot(eId("o"), nm), true))
+				}
+				body = append(body, nBuf(eId("v"), true), nText(","))
+				jobs = append(jobs, J{"doc": []interface{}{nEach("v", "", eId("xs"), body...), nEach("w", "", eIdx(eId("nested"), eNum("0")), body...)}, "data": mutData(rr)})
 			} else if rr.Chance(1, 6) {
 				// a render that fails at run time: the error path reads the engine's template code
 				jobs = append(jobs, J{"doc": []interface{}{nText("before"), nBuf(eCall(eDot(eId("xs"), "join"), eStr("a"), eStr("b")), true)}, "data": mutData(rr)})
